@@ -368,8 +368,9 @@ def scenarios(chk, quick):
 
 def run(chk):
     quick = chk.tier == "quick"
-    ok, log = chk.prove(["extract/Extract_ED.vo"])      # the oracle driver is built from the extracted specification
-    chk.trusted += ["translator/gen_c11.py and translator/cexpr.py (C++ expression -> Gallina)",
+    ok, log = chk.prove(["extract/Extract_ED.vo"], extra_props=["Properties_C01_copy.v"])      # copy constructor of GreensFunction; the oracle driver is built from the extracted specification
+    chk.trusted += ["translator/gen_copy.py (~150 lines: regular expressions over the copy constructor's initialiser list and body) and the meaning coq/theories/CopyShapes.v gives to such a constructor (field-wise state, base classes Thermal = {beta}, ComputableObject = {Status}); a constructor outside the recognised shape falls back to the snapshot and copies are then judged by the runs only",
+                    "translator/gen_c11.py and translator/cexpr.py (C++ expression -> Gallina)",
                     "harness/h_ed.cpp, harness/ed_common.h, ocaml/driver_ed.ml + extraction of PV.EDSpec at binary64 (oracle for G, G(tau)), tools/edlib.py",
                     "python float evaluation of the proved closed forms (term_tau via log1p; sums over the dumped term lists)",
                     "Fourier uniqueness: the inverse direction of tau_is_transform (tau values determined by the Matsubara values) is not proved"]
